@@ -41,6 +41,10 @@ CHECKS["C16"] = dict(category="proof",
    technique="Lean theorem by mutual structural induction over Data trees about a hand model of getDataAsLua/getLuaAsData, tied by differential round trips through a real lua-datamodel interpreter",
    text="lua_roundtrip is proved for every unambiguous value with no bound on nesting or array length (the array proof is the numeric-order invariant of the repaired getLuaAsData); the model is compared with the compiled datamodel on values entering by assignment, as event payload and as <send> parameter and read back by evalAsData / _event.data; assignments to the five system variables are exercised on the real interpreter.",
    design_ref="6 / C16", note="Trusted: Lean kernel; hand model Model.LuaMarshal; liblua/LuaBridge; libstdc++ integer formatting (integers are carried as canonical decimal text, <= 15 digits); floats excluded; INTERPRETED atoms that are Lua source are outside the fragment.")
+CHECKS["C05"] = dict(category="exploration",
+   technique="bit-for-bit differential of the DOM annotation left by ChartToC::prepare against the Lean model Model.Tables; Lean theorems about the modelled relations (symmetry of conflicts, exit set below domain)",
+   text="Model.Tables recomputes documentOrder/parent/childBools/ancBools/completionBools (incl. the history 'covered' bookkeeping)/exitSetBools/conflictBools/targetBools by the same walks as Predicates.cpp; compared on every state and transition of random charts up to 24 states. Structural theorems proved so far are properties of the modelled relations, not yet the equality with the interval characterisation / Appendix D sets, hence 'exploration'.",
+   design_ref="6 / C05", note="Trusted: hand model Model.Tables and the flatten model of resortStates/numbering; the text of the emitted C/Promela/VHDL is compared by C04/C06/C18.")
 PENDING = {}   # id -> reason (filled while the framework is being built)
 
 def main():
